@@ -456,7 +456,9 @@ def file_outcome(mm, path):
             return '/'.join(chain)
         return v
     return ('ok', [(type(it).__name__,) + tuple((a, val(getattr(it, a))) for a, ma in type(it)._tx_attrs.items()
-                                                if not ma.cont) for it in m.items])
+                                                if not ma.cont) for it in m.items],
+            # how often the (non-idempotent) model processor of the harness was applied to this model
+            getattr(m, '_c16_processed', None))
 
 
 def _family(provider):
@@ -469,7 +471,15 @@ def file_history_side(provider, global_repo, hist):
 
     tmp = tempfile.mkdtemp(prefix='c16f_')
 
+    def count_processing(model, metamodel):
+        model._c16_processed = getattr(model, '_c16_processed', 0) + 1
+
     def mk():
+        mm = mk_()
+        mm.register_model_processor(count_processing)
+        return mm
+
+    def mk_():
         if provider == 'rrel-registered':
             mm = metamodel_from_str(RR_GRAMMAR, global_repository=global_repo)
             mm.register_scope_providers({'*.*': 'items.ds*', 'W.t': 'items'})
